@@ -7,4 +7,4 @@ VERIF_REPO=$M ./check $2 --tier ${3:-quick} | grep -v "^KNOWN" | tail -2 | cut -
 python3 -c "
 import json; r=json.load(open('/verif/replays/$2-${VERIF_SEED:-0}-0.json')); print(r['kind'], str(r['what'])[:500]); print('history', len(r.get('case',{}).get('x',{}).get('history',[])), 'standalone', r.get('standalone_reproduces'))"
 VERIF_REPO=$M ./check $2 --replay replays/$2-${VERIF_SEED:-0}-0.json | tail -1
-git -C "$M" checkout -- . ; git -C "$M" clean -fdq
+git -C "$M" reset -q --hard HEAD ; git -C "$M" clean -fdq
